@@ -183,7 +183,7 @@ fn bounds(prop: &str, tier: &str) -> Value {
     "C15" => jsonmc::c15_bounds(tier),
     "C17" => json!({
       "profiles": ["checked (opt-level 2, overflow-checks, debug-assertions, std ub_checks)", "release"],
-      "decoder": format!("all strings of length <= {} over {{A,C,D,g,/,9,',',';','!'}}; continuation runs of length 1..=40 in each of the 5 field positions x 4 continuation digits x 7 terminators; huge deltas", if tier == "thorough" { 8 } else { 6 }),
+      "decoder": format!("all strings of length <= {} over {{A,C,D,g,/,9,',',';','!'}}; continuation runs of length 1..=40 in each of the 5 field positions x 4 continuation digits x 3 first digits (none, '+', '8': sign bit 0) x 10 terminators x with/without an earlier segment; huge deltas of both signs", if tier == "thorough" { 8 } else { 6 }),
       "parsers": format!("from_slice/from_reader/from_json on all byte strings of length <= {}; complete single-edit neighbourhood (every byte -> every value, deletion, truncation, adjacent swap, 7 insertions) of 12 valid documents; nesting depth up to 5000", if tier == "thorough" { 3 } else { 2 }),
       "trees": "wild scope (multi-byte text, invalid UTF-8, maps outside text/tables) through all Source methods and 4 stream modes; SourceMapSource with inner map: all <=2-segment outer x inner lists over wild kinds x 8 option sets, also beneath Cached+Replace and inside Concat",
     }),
@@ -352,7 +352,7 @@ fn replay(prop: &str, case: &Value, ctx: &mut Ctx) {
       let t: term::Term = serde_json::from_value(case["term"].clone()).expect("term");
       let pa: Vec<pairs::Pre> = serde_json::from_value(case["left_prefix"].clone()).unwrap_or_default();
       let pb: Vec<pairs::Pre> = serde_json::from_value(case["right_prefix"].clone()).unwrap_or_default();
-      if case["kind"] == "staged" {
+      if case["kind"] == "staged" || case["kind"] == "staged_concat" {
         pairs::c14_staged(ctx, &t);
       } else if case["kind"] == "neighbours" {
         let e: term::Term = serde_json::from_value(case["edited"].clone()).expect("edited");
@@ -363,7 +363,9 @@ fn replay(prop: &str, case: &Value, ctx: &mut Ctx) {
     }
     "C20" => {
       let t: term::Term = serde_json::from_value(case["term"].clone()).expect("term");
-      if let Ok(e) = serde_json::from_value::<term::Term>(case["edited"].clone()) {
+      if case["kind"] == "staged_concat" {
+        pairs::c20_staged_concat(ctx, &t);
+      } else if let Ok(e) = serde_json::from_value::<term::Term>(case["edited"].clone()) {
         pairs::c20_pair(ctx, &t, &e, case["edit"].as_str().unwrap_or(""));
       }
     }
